@@ -27,7 +27,7 @@ ASSUMPTIONS = ["an empty name/prefix/regex argument means 'not given' (the API's
                "results are normalised to (uri text, set of tags); any exception type counts as 'raises' for injected failures",
                "sqlite's own journaling is trusted for crash atomicity; the check observes it through reopen"]
 REQUIRED_REACH = ["steps_agree", "reopens_ok", "failpoints_ok", "failpoint_statements", "daemon_steps_agree", "prefix_wildcard_cases", "case_pair_cases", "bulk_removals_ok"]
-SHARD_TIMEOUT = {"quick": 240, "thorough": 3000}
+SHARD_TIMEOUT = {"quick": 480, "thorough": 3000}
 NSNAME = "Pyro.NameServer"
 NAMES = ["test", "Test", "TEST", "test.a", "test.b", "Test.a", "tes", "te%t", "te_t", "te.t", "%", "_", "a%", "axb", "a_b", "a.b", "a+b", "a*", "[ab]", "(x)", "ä", "Ä", "ß", "straße",
          "", NSNAME, "Pyro.NameServer2", "pyro.nameserver", "x" * 40, "a b", "ab\\c", "'quoted'", "semi;colon", "\"dq\"",
